@@ -266,8 +266,8 @@ def probe_flags(run, fnd):
             continue
         w = e["witness"]
         o = impl_parse(w["grammar"], w["input"])
-        present = (o == ("raise", w["impl_raises"])) if "impl_raises" in w else \
-                  (o[0] == "ok" and [jt(t) for t in o[1]] == w["impl_trees"])
+        # multistart: the recorded exception kind; recstart: the non-member is accepted at all
+        present = (o == ("raise", w["impl_raises"])) if "impl_raises" in w else (o[0] == "ok")
         flags[flag] = not present
         if present:
             run.known(e["what"])
@@ -514,7 +514,9 @@ def run(run):
         "python reference recogniser (least fixpoint over (A,i,j)) as membership oracle; Coq Lb (proved sound) cross-checks it on all strings of length <= 2",
         "model fuel computed by the harness (item-count bound); an out-of-fuel answer of the model would show up as a disagreement",
         "DerivationTree.from_parse_tree / to_parse_tree are structure-preserving (ISLaSolver.parse results compared as parse trees)"]
-    run.cov["exhaustive"] = f"all strings of length <= {N} over each grammar's alphabet (<= 3 letters)"
+    run.cov["exhaustive"] = True
+    run.cov["exhaustive_scope"] = (f"per grammar: all strings of length <= {N} over the grammar's alphabet (<= 3 letters); "
+                                   "the grammars themselves are sampled")
 
 
 def replay(path):
